@@ -31,6 +31,7 @@ struct AodTT {
   typedef array_tuple_union<Arr, default_array_tuple_union_policy<Arr>, A> Union;
   typedef array_tuple_intersection<Arr, IPol, A> Intersection;
   typedef array_tuple_a_not_b<Arr, A> ANotB;
+  static const bool ITEM_PAYLOAD_DOUBLE = true;   // summaries are datasketches::array<double, A> carrying their own allocator
   static const char* fam() { return "aod"; }
   static uint8_t nv(const TCfg& c) { return static_cast<uint8_t>(1 + c.lg_k1 % 3); }
   static void make_update(void* mem, const TCfg& c, uint8_t lg_k, Arena* a) {
